@@ -264,3 +264,42 @@ theorem nodup_keys_foldl_erase (d : List (κ × α)) (ns : List κ) (h : (keys d
 
 end AL
 end DefconModel
+
+namespace DefconModel
+namespace AL
+variable {κ : Type} {α : Type} [DecidableEq κ]
+
+theorem get?_append_single (l : List (κ × α)) (n k : κ) (v : α) :
+    get? (l ++ [(n, v)]) k = match get? l k with
+      | some x => some x
+      | none => if n = k then some v else none := by
+  induction l with
+  | nil => simp
+  | cons p r ih =>
+    obtain ⟨k', x⟩ := p
+    by_cases hk : k' = k
+    · simp [hk]
+    · simp only [List.cons_append, get?_cons, hk, if_false]; exact ih
+
+theorem get?_append_single' (l : List (κ × α)) (n k : κ) (v : α) :
+    get? (l ++ [(n, v)]) k = if (get? l k).isSome then get? l k else if n = k then some v else none := by
+  rw [get?_append_single]
+  cases get? l k <;> simp
+
+theorem keys_append_single (l : List (κ × α)) (n : κ) (v : α) : keys (l ++ [(n, v)]) = keys l ++ [n] := by
+  simp [keys]
+
+theorem nodup_keys_append_single (l : List (κ × α)) (n : κ) (v : α) (h : (keys l).Nodup) (hn : get? l n = none) :
+    (keys (l ++ [(n, v)])).Nodup := by
+  rw [keys_append_single, List.nodup_append]
+  refine ⟨h, by simp, ?_⟩
+  intro a ha b hb
+  simp at hb; subst hb
+  intro e; subst e
+  simp only [keys, List.mem_map] at ha
+  obtain ⟨⟨k, x⟩, hp, rfl⟩ := ha
+  rw [get?_of_mem_nodup h hp] at hn
+  simp at hn
+
+end AL
+end DefconModel
